@@ -1,4 +1,256 @@
+"""C10: the GDSII reader never panics / hangs / reads out of bounds on any bytes; truncated
+streams are rejected; every library returned can be written and read back to the same value.
+Model Gds/GdsRead.v (total, explicit Panic / OutOfFuel), theorems Properties/C10.v,
+correspondence by fault injection against gds21::GdsLibrary::from_bytes (+ write + re-read)."""
+import json, os
+from vlib import *
 from props.gdscommon import *
+
 HARNESS_BINS = ["c01"]
+CLASS_REAL = "gds-real-rounds-to-16^63"
+TWO252 = (252 + 1023) << 52
+FOREIGN = ["/repo/gds21/resources/sample1.gds", "/repo/gds21/resources/invalid_dates.gds",
+           "/repo/layout21converters/resources/sky130_fd_sc_hd__dfxtp_1.gds"]
+VALID_RT = [x for x in range(60) if x not in (0x14, 0x18, 0x1D, 0x1E, 0x24, 0x25, 0x27, 0x28, 0x29, 0x34, 0x35)]
+REAL_WORDS = [0x7FFFFFFFFFFFFFFF, 0xFFFFFFFFFFFFFFFC, 0x7FFFFFFFFFFFFFFB, 0x0000000000000001, 0x8000000000000000, 0x00FFFFFFFFFFFFFF,
+              0x4110000000000000, 0x0010000000000000, 0x7F10000000000000, 0x7F00000000000001, 0x40FFFFFFFFFFFFFF, 0x4100000000000001, 0x41000000000000FF]
+
+def rec(rt, dt, payload=b""):
+    n = len(payload) + 4
+    return bytes([n >> 8, n & 255, rt, dt]) + payload
+
+PROLOG = rec(0, 2, b"\0\3") + rec(1, 2, bytes(24)) + rec(2, 6, b"ab") + rec(3, 5, bytes.fromhex("3e4189374bc6a7f03944b82fa09b5a54"))
+def in_lib(*recs):
+    return PROLOG + b"".join(recs) + rec(4, 0)
+def in_struct(*recs):
+    return in_lib(rec(5, 2, bytes(24)), rec(6, 6, b"cell"), *recs, rec(7, 0))
+def in_boundary(*recs):
+    return in_struct(rec(8, 0), rec(0x0D, 2, b"\0\1"), rec(0x0E, 2, b"\0\2"), *recs, rec(0x10, 3, bytes(8)), rec(0x11, 0))
+def in_text(*recs):
+    return in_struct(rec(0x0C, 0), rec(0x0D, 2, b"\0\1"), rec(0x16, 2, b"\0\2"), *recs, rec(0x10, 3, bytes(8)), rec(0x19, 6, b"tx"), rec(0x11, 0))
+
+def base_streams(chk, g, n):
+    libs = [g.lib() for _ in range(n)]
+    # make sure every element kind with every option occurs in some base stream
+    libs.append(base_lib(b"all", [{"name": b"cell", "dates": list(range(12)), "elems": [g.elem(k, force=set(OPT_FIELDS[k])) for k in KINDS]}]))
+    res = harness("c01", [{"op": "write", "lib": to_json(l)} for l in libs])
+    return [bytes.fromhex(r["w"]["ok"]) for r in res if "w" in r and "ok" in r["w"]]
+
+def gen_cases(chk):
+    quick = chk.tier == "quick"
+    r = chk.rng
+    g = Gen(r, allow_known=False, allow_empty=True, allow_out_of_range=False)
+    cases = []
+    dist = {}
+    def add(kind, b):
+        cases.append({"kind": kind, "bytes": bytes(b)})
+        dist[kind] = dist.get(kind, 0) + 1
+    streams = base_streams(chk, g, 36 if quick else 400)
+    streams.sort(key=len)
+    foreign = [open(f, "rb").read() for f in FOREIGN if os.path.exists(f) and os.path.getsize(f) > 0]
+    # 0. the intact streams
+    for s in streams:
+        add("intact", s)
+    # 1. every truncation point (small streams), record boundaries +-1 (all streams, foreign files)
+    small = [s for s in streams if len(s) <= (400 if quick else 3000)]
+    for s in small[: (4 if quick else 120)]:
+        for k in range(len(s)):
+            add("truncate_every", s[:k])
+    for s in streams[(4 if quick else 120):] + foreign:
+        recs = split_py(s)
+        pts = set()
+        for off, ln in recs:
+            pts.update([off, off + 1, off + 2, off + 3, off + 4, off + ln - 1])
+        pts = sorted(p for p in pts if p < len(s))
+        if quick:
+            pts = r.sample(pts, min(len(pts), 8 if len(s) < 5000 else 3))
+        for k in pts:
+            add("truncate_boundary", s[:k])
+    # 2. per record: length field faults, zero-length payload, type bytes, structure faults
+    for si, s in enumerate(streams + foreign):
+        recs = split_py(s)
+        if not recs:
+            continue
+        idxs = list(range(len(recs)))
+        if quick:
+            idxs = r.sample(idxs, min(len(idxs), 2 if len(s) < 5000 else 1))
+        elif len(idxs) > 60:
+            idxs = r.sample(idxs, 60)
+        for i in idxs:
+            off, ln = recs[i]
+            for nl in (0, 1, 2, 3, ln + 1, ln - 2, ln + 2, 0xFFFF, 0xFFFE, 4):
+                if nl < 0 or nl == ln:
+                    continue
+                add("len_field", s[:off] + bytes([nl >> 8, nl & 255]) + s[off + 2:])
+            add("zero_payload", s[:off] + bytes([0, 4]) + s[off + 2:off + 4] + s[off + ln:])
+            rts = range(256) if not quick else r.sample(range(256), 3) + r.sample(VALID_RT, 5) + [r.choice([0x3B, 0x3C, 0xFF])]
+            for v in rts:
+                if v != s[off + 2]:
+                    add("rtype_byte", s[:off + 2] + bytes([v]) + s[off + 3:])
+            for v in (r.sample(range(8), 4) + [r.choice([8, 255])] if quick else range(256)):
+                if v != s[off + 3]:
+                    add("dtype_byte", s[:off + 3] + bytes([v]) + s[off + 4:])
+            add("rec_deleted", s[:off] + s[off + ln:])
+            add("rec_duplicated", s[:off + ln] + s[off:off + ln] + s[off + ln:])
+            if i + 1 < len(recs):
+                o2, l2 = recs[i + 1]
+                add("rec_swapped", s[:off] + s[o2:o2 + l2] + s[off:off + ln] + s[o2 + l2:])
+            t = r.choice(streams)
+            tr = split_py(t)
+            if tr:
+                o2, l2 = r.choice(tr)
+                add("rec_spliced", s[:off] + t[o2:o2 + l2] + s[off:])
+                add("rec_replaced", s[:off] + t[o2:o2 + l2] + s[off + ln:])
+            # a byte flipped inside the payload
+            if ln > 4:
+                p = off + 4 + r.randrange(ln - 4)
+                add("payload_byte", s[:p] + bytes([s[p] ^ (1 << r.randrange(8))]) + s[p + 1:])
+    # 3. zero-length payload / short payloads for EVERY record type and data type, in each context
+    ctxs = ((in_lib, "lib"), (in_struct, "struct"), (in_boundary, "boundary"), (in_text, "text"))
+    for rt in range(64):
+        for dt in range(8):
+            for ci, (ctx, nm) in enumerate(ctxs):
+                if quick and (rt + dt + ci + chk.seed) % 4 != 0:
+                    continue
+                add("empty_rec_in_" + nm, ctx(rec(rt, dt)))
+        for pi, pl in enumerate((b"\0\0", b"\0\0\0\0", bytes(8), bytes(6), bytes(24))):
+            for dt in (1, 2, 3, 5, 6):
+                if quick and (rt + dt + pi + chk.seed) % 5 != 0:
+                    continue
+                add("short_rec", in_text(rec(rt, dt, pl)) if rt % 2 else in_lib(rec(rt, dt, pl)))
+    # 4. reals: special eight-byte words in UNITS / MAG / ANGLE (incl. the known class words)
+    for w in REAL_WORDS:
+        wb = w.to_bytes(8, "big")
+        add("real_word", rec(0, 2, b"\0\3") + rec(1, 2, bytes(24)) + rec(2, 6, b"ab") + rec(3, 5, wb + wb) + rec(4, 0))
+        add("real_word", in_text(rec(0x1A, 1, b"\x80\x06"), rec(0x1B, 5, wb)))
+        add("real_word", in_text(rec(0x1A, 1, b"\0\0"), rec(0x1C, 5, wb), rec(0x1B, 5, wb), rec(0x1C, 5, bytes(8))))
+    # 5. strings: NUL padding variants, invalid UTF-8; XY with stray bytes / odd counts
+    for pl in (b"", b"\0\0", b"a\0", b"a\0\0\0", b"\0\0\0\0", b"\xff\xfe", b"\xc3\x28", b"\xe2\x82", b"\xed\xa0\x80\0", b"\xf4\x90\x80\x80", b"\xc0\xaf", b"\xc3\xa9", b"ab\xc3", b"\xc3\xa9\0\0"):
+        add("string_payload", rec(0, 2, b"\0\3") + rec(1, 2, bytes(24)) + rec(2, 6, pl) + rec(3, 5, bytes(16)) + rec(4, 0))
+        add("string_payload", in_text(rec(0x19, 6, pl)))
+        add("string_payload", in_boundary(rec(0x2B, 2, b"\0\1"), rec(0x2C, 6, pl)))
+    for n in (0, 2, 4, 6, 10, 12, 14):
+        add("xy_len", in_struct(rec(8, 0), rec(0x0D, 2, b"\0\1"), rec(0x0E, 2, b"\0\2"), rec(0x10, 3, bytes(n)), rec(0x11, 0)))
+        add("xy_len", in_struct(rec(0x0C, 0), rec(0x0D, 2, b"\0\1"), rec(0x16, 2, b"\0\2"), rec(0x10, 3, bytes(n)), rec(0x19, 6, b"tx"), rec(0x11, 0)))
+        add("xy_len", in_struct(rec(0x2D, 0), rec(0x0D, 2, b"\0\1"), rec(0x2E, 2, b"\0\2"), rec(0x10, 3, bytes(n + 32)), rec(0x11, 0)))
+        add("xy_len", in_struct(rec(0x0B, 0), rec(0x12, 6, b"cc"), rec(0x13, 2, bytes(4)), rec(0x10, 3, bytes(n + 16)), rec(0x11, 0)))
+    # missing required fields, duplicated setters, ENDLIB in odd places
+    add("structural", rec(4, 0))
+    add("structural", rec(0, 2, b"\0\3") + rec(4, 0))
+    add("structural", rec(0, 2, b"\0\3") + rec(1, 2, bytes(24)) + rec(4, 0))
+    add("structural", rec(0, 2, b"\0\3") + rec(1, 2, bytes(24)) + rec(2, 6, b"ab") + rec(4, 0))
+    add("structural", rec(0, 2, b"\0\3") + rec(1, 2, bytes(24)) + rec(3, 5, bytes(16)) + rec(4, 0))
+    add("structural", in_lib(rec(2, 6, b"second"), rec(3, 5, bytes(16))))
+    add("structural", in_lib(rec(5, 2, bytes(24)), rec(4, 0)))
+    add("structural", in_struct(rec(8, 0), rec(4, 0)))
+    add("structural", in_struct(rec(8, 0), rec(0x11, 0)))
+    add("structural", in_struct(rec(0x0C, 0), rec(0x1A, 1, b"\0\0"), rec(4, 0)))
+    add("structural", in_struct(rec(0x0A, 0), rec(0x2B, 2, b"\0\1"), rec(4, 0)))
+    add("structural", in_boundary(rec(0x2B, 2, b"\0\1"), rec(0x2B, 2, b"\0\1")))
+    add("structural", in_boundary(rec(0x0D, 2, b"\0\7"), rec(0x0D, 2, b"\0\7")))
+    # 6. noise
+    for _ in range(250 if quick else 10000):
+        n = r.choice([0, 1, 2, 3, 4, 5, 6, 8, 16, 40, 64])
+        add("noise", bytes(r.getrandbits(8) for _ in range(n)))
+    for _ in range(250 if quick else 10000):
+        # plausible headers followed by noise
+        b = bytearray(PROLOG if r.random() < 0.5 else b"")
+        for _ in range(r.randrange(1, 8)):
+            n = r.choice([0, 2, 4, 8, 16, 24])
+            b += rec(r.choice(VALID_RT), r.randrange(7), bytes(r.getrandbits(8) for _ in range(n)))
+        if r.random() < 0.5:
+            b += rec(4, 0)
+        add("noise_records", b)
+    return cases, dist
+
+def evaluate(chk, cases, tag):
+    res = harness("c01", [{"op": "read_write_read", "bytes": c["bytes"].hex()} for c in cases], timeout=300)
+    items, idx = [], []
+    out = [None] * len(cases)
+    for i, (c, r) in enumerate(zip(cases, res)):
+        if "r" not in r:
+            out[i] = (2, r)            # crash / hang / harness error
+            continue
+        w = r.get("w")
+        wtag = 3 if w is None else 0 if "ok" in w else 1 if "err" in w else 2
+        items.append(capp("c10_check", cbytes(c["bytes"]), c_rres(r["r"]), cz(wtag), c_rres(r.get("r2"))))
+        idx.append(i)
+    codes = eval_codes(chk, items, tag, shard=100)
+    for i, cde in zip(idx, codes):
+        r = res[i]
+        slim = {"r": "ok" if "ok" in r["r"] else r["r"]}
+        if "ok" in r["r"]:
+            slim["reals"] = [x for x in lib_reals_py(r["r"]["ok"]) if (x & ~(1 << 63)) == TWO252]
+            slim["w"] = r.get("w"); slim["eq"] = r.get("eq")
+            slim["r2"] = "ok" if "ok" in r.get("r2", {}) else r.get("r2")
+        out[i] = (cde, slim)
+    return out
+
+def guards(chk):
+    """impl-only guards: big inputs one per process with a timeout (hang / stack overflow / abort), and a linearity measurement"""
+    unit = rec(5, 2, bytes(24)) + rec(6, 6, b"cell") + rec(8, 0) + rec(0x0D, 2, b"\0\1") + rec(0x0E, 2, b"\0\2") + rec(0x10, 3, bytes(40)) + rec(0x11, 0) + rec(7, 0)
+    ns = [2000, 4000, 8000, 16000, 32000]
+    cases = [{"op": "read_time", "pre": PROLOG.hex(), "unit": unit.hex(), "post": rec(4, 0).hex(), "n": n} for n in ns]
+    # adversarial shapes: unterminated, huge element, huge strans chain, no ENDLIB
+    mag = rec(0x1B, 5, bytes(8))
+    cases.append({"op": "read_time", "pre": (PROLOG + rec(5, 2, bytes(24)) + rec(6, 6, b"cell") + rec(0x0C, 0) + rec(0x1A, 1, b"\0\0")).hex(), "unit": mag.hex(), "post": b"".hex(), "n": 200000})
+    cases.append({"op": "read_time", "pre": (PROLOG + rec(5, 2, bytes(24)) + rec(6, 6, b"cell") + rec(8, 0)).hex(), "unit": rec(0x0D, 2, b"\0\1").hex(), "post": b"".hex(), "n": 300000})
+    cases.append({"op": "read_time", "pre": PROLOG.hex(), "unit": rec(2, 6, b"ab").hex(), "post": b"".hex(), "n": 300000})
+    cases.append({"op": "read_time", "pre": b"".hex(), "unit": b"\xff".hex(), "post": b"".hex(), "n": 2000000})
+    res = harness("c01", cases, timeout=60, chunk=1)
+    return ns, cases, res
+
+def classify(c, impl):
+    if isinstance(impl, dict) and impl.get("reals") and impl.get("eq") is False:
+        return CLASS_REAL
+    if isinstance(impl, dict) and isinstance(impl.get("r"), dict) and "panic" in impl["r"]:
+        return "read-panic"
+    if isinstance(impl, dict) and ("crash" in impl):
+        return "crash-or-hang"
+    return "other"
+
 def run(chk, replay=None):
-    pass
+    chk.proof_leg(MODEL_TARGETS, "Properties/C10.v", PROOF_FILES, "Properties.C10")
+    chk.assumptions += [
+        "time and stack use of the implementation are measured, not proved (DESIGN.md section 4): the model-level statement is a bound on fuel / records read",
+        "out-of-bounds reads cannot be expressed in the model other than as Panic (every slice is checked); the correspondence shows the impl agrees class by class",
+        "reading from a byte slice (GdsLibrary::from_bytes); errors compared by GdsError variant",
+    ]
+    if not getattr(chk, "model_ok", False):
+        return
+    if replay:
+        obj = json.load(open(replay))["replay"]
+        cases = [{"kind": "replay", "bytes": bytes.fromhex(h)} for h in obj.get("cases", [])]
+        dist = {}
+    else:
+        cases, dist = gen_cases(chk)
+    results = evaluate(chk, cases, "c10")
+    chk.cov["input_distribution"] = dist
+    chk.cov["rule"] = ("fault injection per DESIGN.md C10 on impl-written streams of generated libraries and on the repository's GDSII files: truncation at every byte / around every record boundary, "
+                       "length-field faults, zero-length payloads for every record and data type in four contexts, record/data type byte replaced, records deleted/duplicated/swapped/spliced, "
+                       "special real words, string and XY payload variants, random noise; non-trivial = at least one complete record header; distinct by byte string")
+    chk.cov["evaluations"] = len(cases)
+    chk.cov["distinct_nontrivial"] = len({c["bytes"] for c in cases if len(c["bytes"]) >= 4})
+    chk.cov["traces_validated_against_impl"] = sum(1 for r in results if r[0] == 0)
+    chk.cov["accepted_streams"] = sum(1 for r in results if isinstance(r[1], dict) and r[1].get("r") == "ok")
+    chk.add_samples([{"kind": c["kind"], "len": len(c["bytes"]), "head": c["bytes"][:48].hex(), "impl": r[1], "code": r[0]}
+                     for c, r in list(zip(cases, results))[:: max(1, len(cases) // 6)]], k=6)
+    if not replay:
+        ns, gcases, gres = guards(chk)
+        meas = []
+        for c, r in zip(gcases, gres):
+            meas.append({"n": c["n"], "unit_len": len(c["unit"]) // 2, "len": r.get("len"), "ns": r.get("ns"), "r": r.get("r"), "crash": r.get("crash"), "panic": r.get("panic")})
+            if "crash" in r or "panic" in r or str(r.get("r", "")).startswith("panic"):
+                chk.violation("GDSII reader crashed, hung or panicked on a large input (%s copies of %s after %s): %s" % (c["n"], c["unit"][:40], c["pre"][:40], json.dumps(r)[:200]),
+                              {"guard_case": c}, suffix="-guard")
+        chk.cov["timing"] = meas
+        t = [m["ns"] for m in meas[:len(ns)] if m["ns"]]
+        if len(t) == len(ns):
+            ratio = t[-1] / max(1, t[0])
+            chk.cov["time_ratio_%dx_input" % (ns[-1] // ns[0])] = round(ratio, 2)
+            if ratio > 4 * ns[-1] / ns[0]:
+                chk.violation("GDSII reader time is not proportional to input length: %s structs take %d ns, %s take %d ns" % (ns[0], t[0], ns[-1], t[-1]),
+                              {"timing": meas}, suffix="-time")
+    report(chk, chk.pid, "GDSII reader on damaged / arbitrary bytes", cases, results,
+           classify=classify, to_replay=lambda c: c["bytes"].hex(), size=lambda c: len(c["bytes"]),
+           describe=lambda c: "%s bytes=%s" % (c["kind"], c["bytes"].hex()[:400]))
